@@ -334,6 +334,35 @@ def check(run: Run) -> None:
                         f"path or a different boundary input than the first leaf (rejects: {rejects}; ordinal := {asg}): an output assembled from parts of "
                         "several inputs would be aliased to one of them", loc=fa.loc(blk[0]))
 
+    with run.obligation("C06.g", "K4", "'all sink nodes always remain distinct' also holds for sinks INSIDE a child graph: a node that owns a child graph "
+                        "(nested_, try_except_, map_, switch_, reduce_, mesh_ ...) is shared between two identical wirings only if the child graph contains no "
+                        "sink node (KNOWN FINDINGS F-C06-2 on the current tree: the decision looks at the owner's own output only)"):
+        OWNER_BUILDERS = ("nested_graph_node", "try_except_node", "map_node", "tsl_map_node", "switch_node", "reduce_node", "ordered_reduce_node", "mesh_node",
+                          "single_nested_graph_node")
+        n = 0
+        for rel in ("include/hgraph/types/subgraph_wiring.h", "include/hgraph/lib/std/operators/impl/higher_order_impl.h"):
+            fi = t.file(rel)
+            for fd in fi.funcs:
+                if fd.body is None:
+                    continue
+                body = fi.text(fd.body[0], fd.body[1])
+                if "add_node" not in body or not any(b + " (" in body for b in OWNER_BUILDERS):
+                    continue
+                fa = R.parse(run, fd, strict=False)
+                cn = R.aliases_of(fa)
+                adds = [c for c in R.calls(fa) if R.callee_name(c).split("::")[-1] == "add_node" and isinstance(c.fn, C.Member)]
+                owners = [c for c in R.calls(fa) if R.callee_name(c).split("::")[-1] in OWNER_BUILDERS]
+                if not adds or not owners:
+                    continue
+                n += 1
+                run.count(1, f"C06.g.{fd.name}")
+                guard = [s0 for s0 in fa.body.walk() if isinstance(s0, (C.If, C.Ternary)) and re.search(r"sink", cn(s0.cond if isinstance(s0, C.If) else s0.c), re.I)]
+                if not guard:
+                    run.finding("C06.g", f"{fd.name}:owner-interned-regardless-of-inner-sinks", f"{fd.qual} adds a node that owns a child graph "
+                                f"({R.callee_name(owners[0])}) through the interning add_node without looking at the child graph's sink nodes: two identical "
+                                "wirings share one child graph and every sink inside it runs once instead of twice", loc=fa.loc(adds[0]))
+        run.sites(n, 3, "owner wiring sites")
+
 
 VARIANTS = [
     {"id": "f-first-leaf-ordinal-wins", "expect": "C06.f", "edits": [{"file": WIRING, "find": "      const std::size_t part_ordinal = captures.boundary_ordinal(part);\n      if (ordinal.has_value() && *ordinal != part_ordinal) {\n        return false;\n      }\n      ordinal = part_ordinal;", "replace": "      if (!ordinal.has_value()) {\n        ordinal = captures.boundary_ordinal(part);\n      }"}]},
